@@ -93,6 +93,14 @@ def fams(*names, **kw):
     return items
 
 
+def op_forms_light():
+    """the variable/literal placements of the comparison and + - operators (cheap for the solver); * / % forms are in C06 / C10"""
+    from .nlsym import skeletons as sk
+    keep = ("lit-local", "local-lit", "lit-global", "global-lit", "local-local", "neglocal-lit", "lit-neglocal")
+    cheap = ("add", "sub", "lt", "lte", "gt", "gte", "eq", "neq")
+    return [x for x in sk.fam_operator_forms() if len(x[0].split(":")) == 3 and x[0].split(":")[1] in keep and x[0].split(":")[2] in cheap]
+
+
 def rnd(seed, n):
     from .nlsym import skeletons as sk
     return sk.fam_random(seed, n)
@@ -143,17 +151,17 @@ def pairs(pred=None):
 
 def sessions(n, seed=0, rnd_n=0, rnd_len=5):
     from .nlsym import skeletons as sk
-    return sk.fam_sessions(n) + (sk.fam_sessions_random(seed, rnd_n, rnd_len) if rnd_n else [])
+    return sk.fam_sessions_directed() + sk.fam_sessions(n) + (sk.fam_sessions_random(seed, rnd_n, rnd_len) if rnd_n else [])
 
 
 PROPS = {
     "C15": run_C15,
     "C01": s_property("C01", "translation_validation",
-                      lambda seed: fams("compose", "control", "calls", "scoping", "sequences", "builtins", "boundary") + exh(2) + rnd(seed, 60),
-                      lambda seed: fams("compose", "control", "calls", "scoping", "sequences", "builtins", "boundary", "operator_forms")
+                      lambda seed: fams("compose", "control", "calls", "scoping", "sequences", "builtins", "boundary", "gc", "undeclared") + op_forms_light() + exh(2) + rnd(seed, 60),
+                      lambda seed: fams("compose", "control", "calls", "scoping", "sequences", "builtins", "boundary", "operator_forms", "gc")
                       + exh(3) + rnd(seed, 600), k=True),
     "C02": s_property("C02", "translation_validation",
-                      lambda seed: fams("control", "calls", "scoping", "boundary", "sequences") + exh(2) + rnd(seed, 40),
+                      lambda seed: fams("control", "calls", "scoping", "boundary", "sequences", "undeclared", "gc") + exh(2) + rnd(seed, 40),
                       lambda seed: fams("control", "calls", "scoping", "boundary", "sequences", "compose", "undeclared") + exh(3) + rnd(seed, 600),
                       k=True, kinds=("unsafe", "typing", "residue", "witness")),
     "C05": s_property("C05", "translation_validation",
@@ -168,11 +176,11 @@ PROPS = {
                       lambda seed: fams("control") + rnd(seed, 30),
                       lambda seed: fams("control") + exh(3) + rnd(seed, 400), k=True),
     "C12": s_property("C12", "translation_validation",
-                      lambda seed: fams("calls") + rnd(seed, 40),
+                      lambda seed: fams("calls", "gc") + rnd(seed, 40),
                       lambda seed: fams("calls", "scoping") + rnd(seed, 400), k=True),
     "C13": s_property("C13", "model_checking",
-                      lambda seed: fams("sequences"),
-                      lambda seed: fams("sequences", "compose") + rnd(seed, 200), k=True),
+                      lambda seed: fams("sequences", "gc"),
+                      lambda seed: fams("sequences", "compose", "gc") + rnd(seed, 200), k=True),
     "C14": s_property("C14", "model_checking",
                       lambda seed: fams("builtins") + [x for x in fams("boundary") if "int-of" in x[0] or "float-of" in x[0] or "builtin" in x[0] or "string-of" in x[0] or "bool-of" in x[0]]
                       + [x for x in fams("compose") if "print" in x[0] or "builtins" in x[0] or "float-int" in x[0]],
